@@ -342,3 +342,91 @@ def run(rep, facts, tier):
     # ------------------------------------------------------------ R12.5 crossed roles (shared lint, rdv/swaplint.py)
     from rdv import swaplint
     swaplint.run_rule(rep, facts['default'], 'R12.5', ['discovery::discovery', 'discovery::discovery_db', 'discovery::spdp'])
+
+
+    rule_12_6(rep, fx)
+
+
+PER_PARTICIPANT_STORES = ('participant_proxies', 'participant_last_life_signs', 'external_topic_readers', 'external_topic_writers',
+                          'external_topic_readers_attic', 'external_topic_writers_attic')
+# operations that change at most the entry of one key, or hand out references without changing the key set
+KEYED_OPS = ('BTreeMap::<K, V, A>::insert', 'BTreeMap::<K, V, A>::remove', 'BTreeMap::<K, V, A>::get_mut', 'BTreeMap::<K, V, A>::entry', 'BTreeMap::<K, V, A>::range_mut',
+             'BTreeMap::<K, V, A>::values_mut', 'BTreeMap::<K, V, A>::iter_mut', 'BTreeMap::<K, V, A>::remove_entry')
+
+
+def _mut_borrow_uses(b, local):
+    """Calls that receive `local` (a &mut) directly or through re-borrows / moves; plus 'escape' if it is stored somewhere."""
+    seen = {local}
+    work = [local]
+    uses = []
+    while work:
+        l = work.pop()
+        for bb, si, st in b.statements():
+            if st['s'] != 'assign':
+                continue
+            rv = st['rv']
+            src = None
+            if rv['r'] in ('ref', 'rawptr') and rv['pl']['l'] == l:
+                src = l
+            elif rv['r'] in ('use', 'cast') and rv['x'].get('o') in ('move', 'copy') and rv['x']['pl']['l'] == l:
+                src = l
+            if src is not None and not st['lhs'].get('p'):
+                if st['lhs']['l'] not in seen:
+                    seen.add(st['lhs']['l'])
+                    work.append(st['lhs']['l'])
+        for bb, t in b.calls():
+            for i, a in enumerate(t['args']):
+                if a.get('o') in ('move', 'copy') and a['pl']['l'] == l:
+                    uses.append((bb, t, i))
+    return uses
+
+
+def rule_12_6(rep, fx):
+    """The per-participant stores of DiscoveryDB (proxies, life signs, endpoints, attic) are shared by all remote participants: an operation on behalf of one participant
+    must not touch the entries of another one."""
+    rep.rule('R12.6', 'one participant at a time: every mutable access to participant_proxies, participant_last_life_signs, external_topic_readers/writers and their attics '
+                      '(outside the constructor) is a single-key operation (insert / remove / get_mut / entry / range_mut) or move_by_guid_prefix (which moves exactly the keys of '
+                      'range(prefix.range())); nothing clears, replaces, drains or filters a whole store, so handling one participant cannot lose what is remembered about another')
+    n = 0
+    for b in fx.bodies:
+        if not b.key.startswith('discovery::discovery_db::') or b.name == 'new':
+            continue
+        for bb, si, st in b.statements():
+            if st['s'] != 'assign':
+                continue
+            # whole-store replacement
+            lp = [e.get('n') for e in (st['lhs'].get('p') or []) if isinstance(e, dict)]
+            if lp and lp[-1] in PER_PARTICIPANT_STORES:
+                n += 1
+                rep.violation('R12.6', '%s/%s/replaced' % (b.key.split('discovery_db::')[-1], lp[-1]),
+                              '%s assigns a whole new value to DiscoveryDB::%s: what was remembered about every other participant is lost' % (b.name, lp[-1]), b.where(bb, si))
+            rv = st['rv']
+            if not (rv['r'] in ('ref', 'rawptr') and rv.get('mut', rv['r'] == 'rawptr')):
+                continue
+            pr = [e.get('n') for e in (rv['pl'].get('p') or []) if isinstance(e, dict)]
+            if not pr or pr[-1] not in PER_PARTICIPANT_STORES:
+                continue
+            store = pr[-1]
+            uses = _mut_borrow_uses(b, st['lhs']['l'])
+            if not uses:
+                rep.violation('R12.6', '%s/%s/unfollowed' % (b.key.split('discovery_db::')[-1], store), 'mutable borrow of %s whose use could not be followed' % store, b.where(bb, si))
+                continue
+            for ubb, t, i in uses:
+                cr = callee_res(t)
+                n += 1
+                ok = cr.endswith(KEYED_OPS) or cr.endswith('discovery_db::move_by_guid_prefix') or cr.endswith(('::deref_mut', '::deref', 'DerefMut::deref_mut'))
+                rep.check(ok, 'R12.6', '%s/%s/%s' % (b.key.split('discovery_db::')[-1], store, cr.rsplit('::', 1)[-1]), 'keyed / one-participant operation',
+                          '%s applies %s to the whole store DiscoveryDB::%s: not restricted to one key or one participant\'s key range, so the entries of other participants '
+                          '(e.g. the endpoints of a timed-out participant waiting in the attic) are affected' % (b.name, cr.rsplit('::', 1)[-1], store), b.where(ubb))
+    rep.floor('R12.6', n, 20, 'mutable uses of the per-participant stores')
+    # move_by_guid_prefix moves exactly the keys of from.range(prefix.range())
+    mv = fx.find('discovery::discovery_db::move_by_guid_prefix')
+    rep.analysed(mv)
+    ogm = Origins(mv, summaries=True)
+    rem = [(bb, t) for bb, t in mv.calls() if callee_res(t).endswith('BTreeMap::<K, V, A>::remove')]
+    rng = [(bb, t) for bb, t in mv.calls() if callee_res(t).endswith('BTreeMap::<K, V, A>::range')]
+    okr = len(rem) == 1 and len(rng) == 1 and term_has(ogm.of_operand(rng[0][1]['args'][1], rng[0][0], 'term'), lambda x: x[0] == 'call' and x[1].endswith('GuidPrefix::range') and x[2][0] == ('param', 1)) \
+        and ogm.of_operand(rng[0][1]['args'][0], rng[0][0], 'term') in (('param', 2), ('deref', ('param', 2))) \
+        and not any(callee_res(t).endswith(('::clear', '::retain', '::split_off', '::append', '::pop_first', '::pop_last', 'mem::take', 'mem::replace', 'mem::swap')) for _bb, t in mv.calls())
+    rep.check(okr, 'R12.6', 'move_by_guid_prefix/range', 'removes from `from` only keys of from.range(guid_prefix.range())',
+              'move_by_guid_prefix no longer selects exactly the keys of from.range(guid_prefix.range())', mv.where())
